@@ -105,6 +105,9 @@ func (a *Allocation) AddPermission(perms *Permission) {
 	perms.allocation = a
 	a.permissionsLock.Lock()
 	a.permissions[fingerprint] = perms
+	// Arm the timer before the permission becomes visible to others: whoever finds it
+	// in the table (Close, a refresh) relies on the timer being there.
+	perms.start(perms.timeout)
 	a.permissionsLock.Unlock()
 
 	if a.eventHandler.OnPermissionCreated != nil {
@@ -114,8 +117,6 @@ func (a *Allocation) AddPermission(perms *Permission) {
 				a.RelayAddr, u.IP)
 		}
 	}
-
-	perms.start(perms.timeout)
 }
 
 // RemovePermission removes the net.Addr's fingerprint from the allocation's permissions.
